@@ -101,7 +101,7 @@ def _c02(seed, quick):
                        "before the read began). All seven read variants are used; pressure, TTL expiry, constant hash and schedule perturbation are drawn per "
                        "case. S-mode adds back-to-back agreement of all variants with the model after every step.",
         "assumptions": COMMON_ASSUMPTIONS + ["a write completes when the client observes its acknowledgement; a delete completes at call return only with respect to writes acknowledged before it began"],
-        "require": ["reads_overlapping_a_write_of_the_same_key", "reads_returned_value"],
+        "require": ["reads_overlapping_a_write_of_the_same_key", "reads_returned_value", "all_variant_rounds", "writes_to_a_definitely_present_key_judged"],
     }
     if not quick:
         import sanit
